@@ -66,9 +66,24 @@ def print_sdl(S):
         elif k == "enum":
             out.append(f"enum {t['name']} {{ " + " ".join(t["values"]) + " }")
         elif k in ("object", "interface"):
-            impl = (" implements " + " & ".join(t["interfaces"])) if t.get("interfaces") else ""
+            # the same type is sometimes spelled with `extend` (deterministic in the type's content): some of its interfaces and /
+            # or its last field arrive through an extension - execution may not tell the difference
+            import zlib
+            crc = zlib.crc32((t["name"] + "|" + ",".join(f["name"] for f in t["fields"]) + "|" + ",".join(t.get("interfaces") or [])).encode())
+            ifs = list(t.get("interfaces") or [])
+            ext_ifs = []
+            if k == "object" and ifs and crc % 3 == 0 and not S.get("no_extend"):
+                keep = (crc >> 3) % len(ifs) if len(ifs) >= 2 else 0
+                ifs, ext_ifs = ifs[:keep], ifs[keep:]
+            fields = list(t["fields"]); ext_fields = []
+            if k == "object" and len(fields) >= 2 and crc % 4 == 1 and not S.get("no_extend"):
+                fields, ext_fields = fields[:-1], fields[-1:]
+            pf = lambda f: f"  {f['name']}{print_args(f['args'])}: {tstr(f['type'])}{f.get('sdl_directives', '')}"
+            impl = (" implements " + " & ".join(ifs)) if ifs else ""
             kw = "type" if k == "object" else "interface"
-            out.append(f"{kw} {t['name']}{impl} {{\n" + "\n".join(f"  {f['name']}{print_args(f['args'])}: {tstr(f['type'])}{f.get('sdl_directives', '')}" for f in t["fields"]) + "\n}")
+            out.append(f"{kw} {t['name']}{impl} {{\n" + "\n".join(pf(f) for f in fields) + "\n}")
+            if ext_ifs or ext_fields:
+                out.append(f"extend type {t['name']}" + ((" implements " + " & ".join(ext_ifs)) if ext_ifs else "") + ((" {\n" + "\n".join(pf(f) for f in ext_fields) + "\n}") if ext_fields else ""))
         elif k == "union":
             out.append(f"union {t['name']} = " + " | ".join(t["members"]))
         elif k == "input":
@@ -79,7 +94,7 @@ def print_sdl(S):
     return "\n".join(out + roots + list(S.get("sdl_extra", []))) + "\n"
 
 # ---- schema generation --------------------------------------------------------------------
-LEAF_FIELD_NAMES = ["id", "name", "x", "y", "z", "w", "score", "flag", "tag", "code", "kind", "label", "amount", "ratio"]
+LEAF_FIELD_NAMES = ["id", "name", "x", "y", "z", "w", "score", "flag", "tag", "code", "kind", "label", "amount", "ratio", "scaled"]
 OBJ_FIELD_NAMES = ["t", "u", "child", "node", "owner", "peer", "nodes", "friends", "parts", "any", "pick", "grid"]
 ARG_NAMES = ["a", "b", "n", "q", "e", "l", "i", "f"]
 
@@ -115,6 +130,9 @@ class SchemaGen:
         for fn in LEAF_FIELD_NAMES:
             ty = self.wrap_out(N(r.choice(self.leaf_names)))
             self.sigs[fn] = {"name": fn, "type": ty, "args": self.rand_args() if r.random() < 0.3 else []}
+        # a field whose argument is non-null WITH a default: a nullable variable may stand there, and a null in it fails the
+        # field while its arguments are coerced (once per parent object: inside lists, several times at once)
+        self.sigs["scaled"] = {"name": "scaled", "type": N("Int"), "args": [{"name": "by", "type": NN(N("Int")), "default": vint(2)}]}
         if "Any" in self.leaf_names:
             # a leaf that may become null only during output coercion, at non-null and list-item positions
             self.sigs["tag"] = {"name": "tag", "type": NN(N("Any")), "args": []}
@@ -242,7 +260,7 @@ class SchemaGen:
         b = ty["n"]
         if b == "Int": return vint(r.choice([0, 1, -1, 7, 42, 2147483647, -2147483648, r.randint(-10**6, 10**6)]))
         if b == "Float": return r.choice([vfloat("1.5"), vfloat("-0.25"), vfloat("1e3"), vint(3), vfloat("12.0"), vfloat("6.02e23")])
-        if b == "String": return vstr(r.choice(["", "a", "hello", "é", "12", "a\"b", "BAD" if False else "ok"]))
+        if b == "String": return vstr(r.choice(["", "a", "hello", "é", "12", "a\"b", "BAD" if False else "ok", "C:\\new\\table"]))   # (a backslash before n / t: must be un-escaped exactly once)
         if b == "Boolean": return vbool(r.random() < 0.5)
         if b == "ID": return r.choice([vstr("id1"), vint(4), vstr("4"), vint(0)])
         if b == "Any": return r.choice([vstr("s"), vint(5), vbool(True)])
@@ -293,7 +311,10 @@ class SchemaGen:
         if b == "Boolean": return r.choice(["true", "false", "", 0, 1, 2, 1.5, float("nan"), float("inf"), [], "yes", 10**400])
         if b == "ID": return r.choice([1.5, True, False, 7.0, float("inf"), [], {"a": 1}, 10**30, -0.0])
         td = self.tdef(b)
-        if td and td["kind"] == "enum": return r.choice(["a", "Z", td["values"][0].lower(), 0, True, [td["values"][0]], "", td["values"][0] + " "])
+        if td and td["kind"] == "enum": return r.choice(["a", "Z", td["values"][0].lower(), 0, True, [td["values"][0]], "", td["values"][0] + " ",
+                                                         # objects that merely CARRY a declared value (a record / Python Enum member with .name, .value)
+                                                         {"o": "Member", "a": [["name", td["values"][0]]]}, {"o": "Member", "a": [["value", td["values"][-1]], ["name", td["values"][-1]]]},
+                                                         {"d": [["name", td["values"][0]]]}])
         if td and td["kind"] in ("object", "interface", "union"):
             return r.choice([5, "str", [], [1], True, {"d": [["_typename", "Nope"]]}, {"d": [["_typename", {"i": "5"}]]}, {"o": "Nope", "a": []}, {"d": [["_typename", "Query"]]},
                              {"d": [["_typename", r.choice(self.obj_names)]]}, {"o": r.choice(self.obj_names), "a": []}, {"d": [["_typename", "E"]]}])
@@ -466,6 +487,12 @@ class DocGen:
             wrong = {"String": [vint(12), vint(1), vfloat("1.5"), vbool(True)], "Int": [vstr("12"), vstr("1"), vfloat("1.5"), vbool(True)],
                      "Float": [vstr("1.5"), vstr("12"), vbool(False)], "Boolean": [vstr("true"), vint(1), vint(0)], "ID": [vfloat("1.5"), vbool(True)]}.get(ty["n"])
             if wrong: d = self.r.choice(wrong)
+        if not is_nn(ty) and "l" in ty and self.bad_var_defaults and self.r.random() < self.bad_var_defaults and base(ty) in ("Int", "String", "Boolean", "Float"):
+            # a list-typed variable whose default is a SINGLE value of the wrong kind, or a list holding one
+            w1 = {"String": vint(12), "Int": vstr("a"), "Float": vstr("1.5"), "Boolean": vint(1)}[base(ty)]
+            inner = unwrap_nn(ty["l"])
+            if "l" in inner: d = self.r.choice([vlist([w1]), vlist([vlist([w1])]), w1])
+            else: d = self.r.choice([w1, vlist([w1]), vlist([self.sg.const_literal({"nn": {"n": base(ty)}}, 0), w1])])
         vars_[name] = (ty, d)
         self.stats["vars"] += 1
         return name
@@ -523,6 +550,19 @@ class DocGen:
             return f" @note(t: ${v})", True
         if r.random() > 0.15: return "", True
         self.stats["directives"] += 1
+        if r.random() < 0.3:
+            # BOTH directives on one selection, in either order (@skip wins whatever the order)
+            parts = []
+            for name in r.sample(["skip", "include"], 2):
+                if vars_ is not None and r.random() < 0.3:
+                    keep = self.nullable_default_vars
+                    if not self.null_condition_vars: self.nullable_default_vars = 0.0
+                    v = self.new_var(NN(N("Boolean")), vars_)
+                    self.nullable_default_vars = keep
+                    parts.append(f" @{name}(if: ${v})")
+                else:
+                    parts.append(f" @{name}(if: {'true' if r.random() < 0.5 else 'false'})")
+            return "".join(parts), None
         name = r.choice(["skip", "include"])
         if vars_ is not None and r.random() < 0.4:
             keep = self.nullable_default_vars
@@ -687,6 +727,22 @@ class DocGen:
         if r.random() < 0.5: texts.reverse()        # fragments defined before use, operations last
         return "\n".join(texts), [(k, n) for k, n, _ in ops], op_vars
 
+    def floatify(self, ty, val):
+        """the same valid JSON value with some integers at Int positions spelled as integral floats (3 -> 3.0): accepted for
+        Int, and what reaches the resolver is the integer"""
+        r = self.r
+        t0 = unwrap_nn(ty)
+        if val is None: return None
+        if "l" in t0:
+            return [self.floatify(t0["l"], x) for x in val] if isinstance(val, list) else self.floatify(t0["l"], val)
+        b = t0["n"]
+        if b == "Int" and isinstance(val, int) and not isinstance(val, bool) and r.random() < 0.6: return float(val)
+        td = self.sg.tdef(b) if b not in ("Int", "Float", "String", "Boolean", "ID", "Any") else None
+        if td is not None and td["kind"] == "input" and isinstance(val, dict):
+            fts = {f["name"]: f["type"] for f in td["fields"]}
+            return {k: (self.floatify(fts[k], v) if k in fts else v) for k, v in val.items()}
+        return val
+
     def spoil_json(self, ty, val):
         """(value, what) with exactly one position of the valid JSON `val` for type `ty` made invalid, or None"""
         r = self.r
@@ -747,5 +803,6 @@ class DocGen:
             if not is_nn(ty) and r.random() < (0.3 if d is not None else 0.1): out[n] = None; continue      # explicit null for a nullable variable (default NOT applied)
             lit = self.sg.const_literal(ty, 0)
             out[n] = value_to_json(lit)
+            if r.random() < 0.3: out[n] = self.floatify(ty, out[n])
         if r.random() < 0.2: out["extra_undeclared"] = 1
         return out, bad
